@@ -551,3 +551,68 @@ crc_inst! {
     c10_crc_n4 = 4;
     c10_crc_n8 = 8;
 }
+
+// =============================================================================================
+// C14, 64 KiB boundary.  Sizes are concrete per instance (a symbolic size on a 64 KiB object is out
+// of reach: 28-56 GB); the value copy of DATA is stubbed away (sizes only), buffers are
+// uninitialised.  Message = DATA(L1 bytes) + DONT-FRAGMENT: attribute bytes = 4 + L1 + pad + 4.
+// =============================================================================================
+#[cfg(feature = "turn")]
+fn stub_data_encode_size_only(this: &crate::attributes::turn::Data, ctx: crate::context::AttributeEncoderContext) -> Result<usize, crate::StunError> {
+    let size = this.as_bytes().len();
+    crate::common::check_buffer_boundaries(ctx.raw_value(), size)?;
+    Ok(size)
+}
+
+#[cfg(feature = "turn")]
+fn c14_64k<const L1: usize>() {
+    use crate::attributes::turn::{Data, DontFragment};
+    let mut v: Vec<u8> = Vec::with_capacity(65536);
+    unsafe {
+        v.set_len(L1);
+    }
+    let msg = StunMessageBuilder::new(MessageMethod(1), MessageClass::Request)
+        .with_transaction_id(TransactionId::from([0u8; 12]))
+        .with_attribute(Data::from(v))
+        .with_attribute(DontFragment::default())
+        .build();
+    const N: usize = 65600;
+    let mut buf: Vec<u8> = Vec::with_capacity(N);
+    unsafe {
+        buf.set_len(N);
+    }
+    let r = MessageEncoderBuilder::default().build().encode(&mut buf, &msg);
+    let total = 4 + L1 + ((4 - (L1 & 3)) & 3) + 4;
+    match &r {
+        Ok(n) => {
+            assert!(total <= 65535, "C14: a message that does not fit the 16-bit length field is rejected, not encoded with a wrapped length");
+            assert!(*n == 20 + total, "C14: returned size = 20 + attribute bytes (never wrapped)");
+            assert!(buf[2] == (total >> 8) as u8 && buf[3] == total as u8);
+        }
+        Err(_) => assert!(total > 65535, "C14: any message with up to 65535 attribute bytes is encoded"),
+    }
+    std::mem::forget(r);
+    std::mem::forget(msg);
+    std::mem::forget(buf);
+}
+
+#[cfg(feature = "turn")]
+macro_rules! k64_inst {
+    ($($name:ident = $l:expr;)*) => {$(
+        #[kani::proof]
+        #[kani::unwind(4)]
+        #[kani::stub(alloc::fmt::format, nofmt)]
+        #[kani::stub(<crate::types::TransactionId as std::default::Default>::default, tid_any)]
+        #[kani::stub(<crate::attributes::turn::Data as crate::attributes::EncodeAttributeValue>::encode, stub_data_encode_size_only)]
+        fn $name() { c14_64k::<$l>(); }
+    )*};
+}
+#[cfg(feature = "turn")]
+k64_inst! {
+    c14_64k_l65496 = 65496;
+    c14_64k_l65508 = 65508;
+    c14_64k_l65524 = 65524;
+    c14_64k_l65527 = 65527;
+    c14_64k_l65528 = 65528;
+    c14_64k_l65535 = 65535;
+}
